@@ -448,7 +448,7 @@ def plStep (s : PlS) : PlA → Option PlS
         if e = [] then some { s with bg := .sending v, script := rest, finished := s.finished + 1 }
         else if isSkip e then some { s with script := rest, finished := s.finished + 1 }
         else if isAny e [.eof, .abort] then some { s with bg := .closed [], script := rest, finished := s.finished + 1 }
-        else some { s with bg := .closed e, script := rest, finished := s.finished + 1 }
+        else some { s with bg := .closed (join [e]), script := rest, finished := s.finished + 1 }   -- the collector's stack
     else none
   | .recv =>
     match s.bg with
